@@ -1,7 +1,7 @@
 #!/bin/bash
 # usage: mut.sh <patch.diff> <prop> [more props...]   — run checks against a scratch copy of /repo with the patch applied
 set -u
-patch=$1; shift
+patch=$(realpath "$1"); shift
 d=$(mktemp -d /tmp/mut.XXXXXX)
 rsync -a --exclude .git /repo/ $d/
 if ! (cd $d && patch -p1 -s --no-backup-if-mismatch < $patch); then echo "PATCH FAILED"; rm -rf $d; exit 9; fi
